@@ -346,6 +346,41 @@ theorem placed_layer_data_resave_stable (tb : Descriptor.Tables) (ht : Descripto
 theorem type_tool_object_setting_dec_encodable (tb : Descriptor.Tables) (ht : Descriptor.TermsFour tb) (pad : Nat) : DecOK (TypeToolObjectSetting.codec tb pad) := TypeToolObjectSetting.decOK tb ht pad
 theorem type_tool_object_setting_resave_stable (tb : Descriptor.Tables) (ht : Descriptor.TermsFour tb) (pad : Nat) : Stable (TypeToolObjectSetting.codec tb pad) := stable_of (TypeToolObjectSetting.decOK tb ht pad) (TypeToolObjectSetting.rt tb pad).atEnd
 
+/-! ## the length side conditions are exact -/
+
+/-- the side condition of a `…_partial` theorem is exact whenever it is a consequence of `Fits` (it is, for every length
+condition: the length field is one of the conjuncts): a decoded value is writable IFF the condition holds - the payload
+analogue of `dec_encodable_iff` -/
+theorem dec_encodable_iff_of {α : Type} (c : PCodec α) (L : α → Prop) (h : DecOKIf c L) (hL : ∀ v, c.Fits v → L v)
+    (d : B) (p : Nat) (v : α) (p' : Nat) (hd : c.dec d p = .ok (v, p')) : Encodable c v ↔ L v := by
+  constructor
+  · rintro ⟨bs, hbs⟩
+    exact hL v (enc_ok hbs).1
+  · exact fun hl => h.encodable hd hl
+
+theorem metadata_setting_dec_encodable_iff (tb : Descriptor.Tables) (ht : Descriptor.TermsFour tb) (d : B) (p : Nat)
+    (v : MetadataSetting) (p' : Nat) (hd : (MetadataSetting.codec tb).dec d p = .ok (v, p')) :
+    Encodable (MetadataSetting.codec tb) v ↔ MetadataSetting.ResaveOK tb v :=
+  dec_encodable_iff_of _ _ (MetadataSetting.decOKIf tb ht) (fun _ h => h.2) d p v p' hd
+
+theorem annotation_dec_encodable_iff (d : B) (p : Nat) (v : Annotation) (p' : Nat) (hd : Annotation.codec.dec d p = .ok (v, p')) :
+    Encodable Annotation.codec v ↔ Annotation.ResaveOK v :=
+  dec_encodable_iff_of _ _ Annotation.decOKIf (fun _ h => h.2.2.2.2.2.2.2.2.2.1) d p v p' hd
+
+theorem effects_layer_dec_encodable_iff (d : B) (p : Nat) (v : EffectsLayer) (p' : Nat)
+    (hd : EffectsLayer.codec.dec d p = .ok (v, p')) : Encodable EffectsLayer.codec v ↔ EffectsLayer.LenFits v :=
+  dec_encodable_iff_of _ _ EffectsLayer.decOKIf (fun _ h kv hkv => (h.2.2 kv hkv).2) d p v p' hd
+
+theorem filter_effect_dec_encodable_iff (d : B) (p : Nat) (v : FilterEffect) (p' : Nat)
+    (hd : FilterEffect.codec.dec d p = .ok (v, p')) : Encodable FilterEffect.codec v ↔ FilterEffect.LenFits v :=
+  dec_encodable_iff_of _ _ FilterEffect.decOKIf (fun _ h => h.2.2.1.2) d p v p' hd
+
+theorem linked_layers_dec_encodable_iff (tb : Descriptor.Tables) (ht : Descriptor.TermsFour tb) (d : B) (p : Nat)
+    (v : List LinkedLayer) (p' : Nat) (hd : (LinkedLayers.codec tb).dec d p = .ok (v, p')) :
+    Encodable (LinkedLayers.codec tb) v ↔ LinkedLayers.ResaveOK tb v :=
+  dec_encodable_iff_of _ _ (LinkedLayers.decOKIf tb ht) (fun _ h x hx => (h x hx).2) d p v p' hd
+
+
 /-! ## the descriptor family -/
 
 /-- every known term has 4 bytes: in the regenerated `_TERMS` (no term of another length) and hence in the tables of the
